@@ -160,7 +160,8 @@ pub fn stream(seed: u64, count: u64) -> String {
             }
             4 => {
                 let s = dec_str(&mut r);
-                let prec = *r.pick(&[0u128, 1, 2, 3, 6, 18]);
+                // every precision up to the first that panics, and precisions whose low 32 bits look legal
+                let prec = *r.pick(&[0u128, 1, 2, 3, 6, 18, 9, 12, 19, 27, 28, 29, 30, 38, 39, 40, 255, 4294967295, 4294967296, 4294967298, 4294967296 + 18, 4294967296 + 29, 3 << 32, (1 << 64) + 2, u128::MAX]);
                 if let Ok(d) = Decimal::from_str(&s) {
                     let res = catch_unwind(AssertUnwindSafe(|| is_invalid_price_precision(d, Uint128::new(prec))));
                     let t = match res {
